@@ -63,15 +63,19 @@ def twosided_2_onesided(data):
 
     ::
 
-        >>> twosided_2_onesided([10, 2,3,3,2,8])
+        >>> twosided_2_onesided([10, 2, 3, 8, 3, 2])
         array([ 10.,   4.,   6.,   8.])
 
+    The input follows the FFT ordering (frequencies 0, df, ..., (N-1)df): for
+    an even length the value at N/2 is the Nyquist term and is not doubled;
+    for an odd length there is no Nyquist term.
+
     """
-    assert len(data) % 2 == 0
     N = len(data)
     psd = np.array(data[0:N//2+1]) * 2.
     psd[0] /= 2.
-    psd[-1] = data[-1]
+    if N % 2 == 0:
+        psd[-1] /= 2.
     return psd
 
 
@@ -85,30 +89,29 @@ def onesided_2_twosided(data):
 
     ::
 
-        >>> twosided_2_onesided([10, 4, 6, 8])
-        array([ 10.,   2.,   3.,   3., 2., 8.])
+        >>> onesided_2_twosided([10, 4, 6, 8])
+        array([ 10.,   2.,   3.,   8.,   3.,   2.])
+
+    The output has the even length 2*(len(data)-1) and follows the FFT
+    ordering, the last input value being the Nyquist term.
 
     """
-    psd = np.concatenate((data[0:-1], cshift(data[-1:0:-1], -1)))/2.
+    data = np.asarray(data, dtype=float)
+    N = len(data)
+    psd = np.concatenate((data, data[-2:0:-1])) / 2.
     psd[0] *= 2.
-    psd[-1] *= 2.
+    psd[N-1] *= 2.
     return psd
 
 
 def twosided_2_centerdc(data):
     """Convert a two-sided PSD to a center-dc PSD"""
-    N = len(data)
-    # could us int() or // in python 3
-    newpsd = np.concatenate((cshift(data[N//2:], 1), data[0:N//2]))
-    newpsd[0] = data[-1]
-    return newpsd
+    return np.fft.fftshift(data)
 
 
 def centerdc_2_twosided(data):
     """Convert a center-dc PSD to a twosided PSD"""
-    N = len(data)
-    newpsd = np.concatenate((data[N//2:], (cshift(data[0:N//2], -1))))
-    return newpsd
+    return np.fft.ifftshift(data)
 
 
 def twosided(data):
